@@ -8,12 +8,12 @@
 //   O calcM / O calcMInv     column major (only when full==1)
 // P lines: the property's predicates evaluated on the implementation's own outputs.
 #include "treedyn_gen.h"
-static_assert(TREEDYN_GEN_VERSION == 10, "bump the version here when treedyn_gen.h changes");
+static_assert(TREEDYN_GEN_VERSION == 12, "bump the version here when treedyn_gen.h changes");
 using namespace SimTK;
 using td::TreeCase;
 
-static void runCase(uint64_t caseSeed, int maxBodies) {
-    td::Options opt; opt.maxBodies = maxBodies;
+static void runCase(uint64_t caseSeed, int code) {
+    td::Options opt; td::applyGenCode(code, opt);
     std::unique_ptr<TreeCase> pc = td::buildCase(caseSeed, opt);
     TreeCase& c = *pc; const State& s = c.state; const SimbodyMatterSubsystem& matter = *c.matter;
     const int nu = c.nu, nb = c.nb;
@@ -21,7 +21,7 @@ static void runCase(uint64_t caseSeed, int maxBodies) {
     const Vector v = td::rvector(c.g, nu), f = td::rvector(c.g, nu);
     const Vector u = s.getU();
 
-    vh::Line in = vh::I("tree"); in.s(std::to_string(caseSeed)).i(maxBodies).i(full ? 1 : 0);
+    vh::Line in = vh::I("tree"); in.s(std::to_string(caseSeed)).i(code).i(full ? 1 : 0);
     td::exportTree(c, in); in.v(v, nu).v(f, nu).v(u, nu); in.emit();
 
     Vector Mv, MIf;
@@ -53,8 +53,31 @@ static void runCase(uint64_t caseSeed, int maxBodies) {
     vh::D(full ? "full" : "ops-only");
 
     // ---- predicates on the implementation's own outputs
-    const std::string key = "C01.tree";
+    // cases containing a body served by the special lone-particle node class get their own key prefix
+    const std::string key = td::anyLoneParticle(c) ? "C01.loneparticle" : "C01.tree";
     if (nu == 0) return;
+    if (td::hasReversedLineQuat(c)) vh::D("fd.skipped.reversedLine.quaternion");
+    else {   // from-q validation of the exported hinge columns: J e_i (recursion over getHCol / Phi) against central differences of the
+        // body poses along qdot = N e_i  -- this is what makes the (type x direction x frames x option) classes matter here
+        const int ncol = std::min(nu, 8);
+        double worst = 0;
+        for (int kcol = 0; kcol < ncol; ++kcol) {
+            const int i = nu <= 8 ? kcol : c.g.below(nu);
+            Vector e(nu); e = 0; e[i] = 1;
+            Vector_<SpatialVec> Je; matter.multiplyBySystemJacobian(s, e, Je);
+            std::vector<SpatialVec> Vfd; td::fdBodyVelocities(c, e, 1e-5, Vfd);
+            for (int b = 1; b <= nb; ++b) {
+                double sc = 1; for (int r = 0; r < 2; ++r) for (int q = 0; q < 3; ++q) sc = std::max(sc, std::fabs(Je[b][r][q]));
+                for (int r = 0; r < 2; ++r) for (int q = 0; q < 3; ++q) worst = std::max(worst, std::fabs(Je[b][r][q] - Vfd[b][r][q]) / sc);
+            }
+        }
+        vh::P("hinge_columns_match_finite_differences_of_pose", key + ".hcol_fd", worst, 1e-6);
+        // KE from finite-difference body velocities (no H involved) = calcKineticEnergy
+        std::vector<SpatialVec> Vu; td::fdBodyVelocities(c, u, 1e-5, Vu);
+        double kefd = 0;
+        for (int b = 1; b <= nb; ++b) { const SpatialVec MV = c.mobods[b].getBodySpatialInertiaInGround(s) * Vu[b]; kefd += 0.5 * (~Vu[b][0] * MV[0] + ~Vu[b][1] * MV[1]); }
+        vh::P("ke_from_finite_difference_velocities", key + ".ke_fd", std::fabs(kefd - ke) / std::max(1.0, std::fabs(ke)), 1e-6);
+    }
     const double eps = 2.220446049250313e-16;
     {   // M (M^-1 f) = f  and  M^-1 (M v) = v
         Vector t1, t2; matter.multiplyByM(s, MIf, t1); matter.multiplyByMInv(s, Mv, t2);
@@ -113,8 +136,8 @@ int main(int argc, char** argv) {
         static char buf[1 << 24];
         while (std::fgets(buf, sizeof buf, stdin)) {
             if (std::strncmp(buf, "I tree ", 7) != 0) continue;
-            unsigned long long cs; int mb;
-            if (std::sscanf(buf + 7, "%llu %d", &cs, &mb) == 2) runCase(cs, mb);
+            unsigned long long cs; int code;
+            if (std::sscanf(buf + 7, "%llu %d", &cs, &code) == 2) runCase(cs, code);
         }
         return 0;
     }
@@ -124,7 +147,7 @@ int main(int argc, char** argv) {
         const uint64_t cs = master.next() >> 1;
         int maxB = 12;
         if (thorough && master.below(5) == 0) maxB = 40;
-        runCase(cs, maxB);
+        runCase(cs, td::genCode(maxB, td::flagsForCase(k)));
     }
     return 0;
 }
